@@ -27,6 +27,7 @@ CLAUSES = {
 MC_CFG = """CONSTANT Tier = "%s"
 CONSTANT Coerce = FALSE
 CONSTANT Deviations = {}
+CONSTANT SchemaGaps = {"flattened", "mapkeys", "discriminated"}
 SPECIFICATION Spec
 INVARIANT ResultShape
 INVARIANT LocsInData
